@@ -99,7 +99,7 @@ def describe(s0, back, fam, hint=""):
 
 def msgsig(msg):
     """Signature of an exception message with the quoted / numeric parts (values, addresses) removed."""
-    norm = re.sub(r"'[^']*'|\"[^\"]*\"|\{[^}]*\}|[0-9]+", "", str(msg))[:200]
+    norm = re.sub(r"/[^\s'\"]+|'[^']*'|\"[^\"]*\"|\{[^}]*\}|0x[0-9a-fA-F]+|[0-9]+", "", str(msg))[:200]  # no paths, values, sets, addresses, numbers
     return format(zlib.crc32(norm.encode("utf-8", "backslashreplace")) & 0xFFFFFF, "06x")
 
 
@@ -357,6 +357,8 @@ def grid_unit(unit):
                         continue
                     if dlabel == "canon" and not thorough and (section == "save" or ts.depth >= 2 or ts.depth == 1 and ts.name not in PICK):
                         continue
+                    if dlabel == "canon" and thorough and ts.depth >= 3:
+                        continue
                     try:
                         B = build(shape, ts, default, mode)
                     except Exception as ex:  # noqa
@@ -383,7 +385,7 @@ def grid_unit(unit):
                             if section == "dump":
                                 # quick tier: all formats with the None default, the yaml pair (plain, skip_default) with the non-None default
                                 check_dumps(cx, cfg, s0, label, plain=(dlabel == "none" or thorough), skip_default=(dlabel == "canon" or thorough or ts.depth == 0),
-                                            comments=(ts.name in COMMENT_TYPES and (shape in ("flat", "subcmd1") or thorough)), all_formats=thorough, fewer=(ts.depth >= 2 and not thorough))
+                                            comments=(ts.name in COMMENT_TYPES and (shape in ("flat", "subcmd1") or thorough)), all_formats=thorough and ts.depth <= 1, fewer=(ts.depth >= 2))
                             else:
                                 check_save(cx, cfg, s0, label, all_combos=thorough)
                             if len(rec.samples) < 1 and ts.depth >= 1:
@@ -730,6 +732,9 @@ def main():
     if os.environ.get("VERIF_TIMING"):
         h.note("timing: " + ", ".join(f"{k}={v:.1f}" for k, v in sorted(totals.items(), key=lambda kv: -kv[1]) if k.startswith(("time:", "maxunit:")))[:3000])
     h.check(totals.get("accepted", 0) > 0 and totals.get("rejected", 0) > 0, "c01:vacuity", "both accepted and rejected inputs must occur", totals)
+    if h.only:  # replay: report only the requested key (exit status 1 iff it still fails)
+        h.violations = [v for v in h.violations if v["key"] == h.only]
+        h.viol_keys = {v["key"] for v in h.violations}
     if len(h.viol_keys) > len(h.violations):
         stored = {v["key"] for v in h.violations}
         h.note(f"{len(h.viol_keys)} distinct violation keys, only {len(h.violations)} stored; the others: " + " | ".join(sorted(h.viol_keys - stored)))
